@@ -11,7 +11,6 @@
                enc_text label ++ [kind] ++ opt detail ++ opt documentation ++ opt insert_text, SORTED
                (the Rust code iterates HashMaps); [1] panic; [2] fuel. *)
 From Spl Require Export Judge.Dump Model.Completion.
-From Spl Require Import Proofs.SemTokProofs.
 
 Definition enc_semtok (s : semtok) : list N := [st_dl s; st_ds s; st_len s; st_ty s; st_mod s].
 
